@@ -1,4 +1,5 @@
 import PyodaModel.DriverLoop
 import PyodaModel.Elapsed
+import PyodaModel.Decimal
 
-def main : IO Unit := Pyoda.runDriver [Pyoda.Elapsed.handle]
+def main : IO Unit := Pyoda.runDriver [Pyoda.Elapsed.handle, Pyoda.Decimal.handle]
